@@ -277,6 +277,7 @@ class Run:
                     elif self.objs.get(p) is not None:
                         setattr(self.objs[p], nm, v)
         rec.emit("step", op="construct", phase="begin", val=dict(rec.val), stored=stored, start=step.get("start"), reuse=reuse)
+        self.last_start = step.get("start")
         self.user_model = model
         try:
             if spec.get("mixin"):
@@ -525,6 +526,9 @@ class Run:
         if act == "construct_incomplete":
             self._construct_incomplete()
             return
+        if act == "odd_state_field":
+            self._odd_state_field()
+            return
         if act == "clone":
             self._clone(step)
             return
@@ -567,6 +571,34 @@ class Run:
         self._check_isolation(n0, act)
         return
         yield  # pragma: no cover
+
+    def _odd_state_field(self):
+        """Another machine of the same class whose state_field is named like a guard / callback the
+        machine class provides (the state is stored on the MODEL under that name, the machine's own
+        attribute stays what it is); then one more ordinary instance: both must be accepted."""
+        sp, rec = self.spec, self.rec
+        names = sorted({n for n, g in sp["guards"].items() if g["providers"] == ["sm"] and g["kind"] == "method"
+                        and any(x["name"] == n for t in sp["transitions"] for x in t["guards"])})
+        if not names:
+            return
+        nm = names[len(rec.log) % len(names)]
+        cls = type(self.sm)
+        keep_log, rec.log = rec.log, []
+        got = []
+        try:
+            import warnings as _w
+            with _w.catch_warnings():
+                _w.simplefilter("ignore")
+                for kw in ({"state_field": nm}, {}):
+                    objs = render.provider_objects(sp, self.mod, role="other")
+                    try:
+                        cls(objs["model"], listeners=[objs[p] for p in sp["providers"] if p not in ("sm", "model")], **kw)
+                        got.append("built")
+                    except Exception as err:  # noqa: BLE001
+                        got.append(f"{type(err).__name__}: {err}"[:160])
+        finally:
+            rec.log = keep_log
+        rec.emit("note", what="odd-state-field", name=nm, got=got)
 
     def _construct_incomplete(self):
         """Another machine of the SAME class over a bare model and without listeners: whether it is
@@ -710,7 +742,9 @@ class Run:
             ids = {p: id(o) for p, o in self.objs.items() if o is not None}
             ids["sm"] = id(clone)
             active = sorted(step.get("active") or [])
-            rec.emit("step", op="construct", phase="begin", val=dict(rec.val), stored=state_before, start=None,
+            # (a clone of a not yet activated machine still starts in the original's start_value state)
+            rec.emit("step", op="construct", phase="begin", val=dict(rec.val), stored=state_before,
+                     start=getattr(self, "last_start", None) if state_before is None else None,
                      reuse=False, active=active, cloned=how)
             rec.emit("step", op="construct", phase="end", ids=ids, engine=type(clone._engine).__name__ if hasattr(clone, "_engine") else None)
             self._probe()
